@@ -1243,3 +1243,36 @@ def get_downloads_replay(n=5, sample=2):
                 out["failures"].append({"failing": list(fs), "requested": u.manager.requested, "rows": None if df is None else list(df["geographic_unit_fips"]), "stamps": None if df is None else [str(x) for x in df["last_modified"]]})
     out["failures"] = out["failures"][:3]
     return out
+
+
+def bootstrap_aggregate_identity_replay():
+    """REAL BootstrapElectionModel.get_aggregate_predictions on a model whose unit-level predictions are set by hand (one
+    outstanding unit has already counted MORE two-party votes than its predicted turnout): the predicted turnout of every
+    state must be the sum of its units' (counted or predicted) turnout, and the predicted margin the sum of unit margins
+    over that turnout"""
+    from elexmodel.models.BootstrapElectionModel import BootstrapElectionModel
+
+    m = BootstrapElectionModel({"features": ["baseline_normalized_margin"], "B": 10})
+    rep = pd.DataFrame({"postal_code": ["AA", "BB"], "geographic_unit_fips": ["a1", "b1"], "baseline_weights": [1000.0, 800.0], "results_normalized_margin": [0.1, -0.2], "turnout_factor": [1.1, 0.9], "results_margin": [110.0, -144.0], "pred_margin": [110.0, -144.0], "reporting": 1})
+    # a2: predicted turnout 300 although 540 two-party votes are already counted there
+    non = pd.DataFrame({"postal_code": ["AA", "BB"], "geographic_unit_fips": ["a2", "b2"], "baseline_weights": [400.0, 500.0], "results_weights": [540.0, 50.0], "results_margin": [40.0, 5.0], "pred_margin": [30.0, -60.0], "reporting": 0})
+    unx = pd.DataFrame({"postal_code": ["AA"], "geographic_unit_fips": ["x1"], "results_weights": [70.0], "results_margin": [10.0], "pred_margin": [10.0], "reporting": [0]})
+    for f in (rep, non, unx):
+        for c in ("baseline_dem", "baseline_gop", "baseline_turnout"):
+            f[c] = 1.0
+    m.weighted_z_test_pred = np.array([[300.0], [450.0]])
+    m.weighted_yz_test_pred = np.array([[30.0], [-60.0]])
+    m.ran_bootstrap = True
+    out = {"exc": None}
+    try:
+        est = m.get_aggregate_predictions(rep, non, unx, ["postal_code"], "margin", lhs_called_contests=[], rhs_called_contests=[]).set_index("postal_code")
+        want_turnout = {"AA": 1000.0 * 1.1 + 300.0 + 70.0, "BB": 800.0 * 0.9 + 450.0}
+        want_margin = {"AA": (110.0 + 30.0 + 10.0) / want_turnout["AA"], "BB": (-144.0 - 60.0) / want_turnout["BB"]}
+        out["pred_turnout"] = {k: float(est.loc[k, "pred_turnout"]) for k in want_turnout}
+        out["pred_margin"] = {k: float(est.loc[k, "pred_margin"]) for k in want_turnout}
+        out["want_turnout"], out["want_margin"] = want_turnout, want_margin
+        out["ok"] = all(abs(out["pred_turnout"][k] - want_turnout[k]) < 1e-6 and abs(out["pred_margin"][k] - want_margin[k]) < 1e-9 for k in want_turnout)
+    except Exception as e:  # noqa
+        out["exc"] = f"{type(e).__name__}: {e}"
+        out["ok"] = False
+    return out
